@@ -53,7 +53,7 @@ def rand_key(rng, plain_ok=None):
     if plain_ok is None:
         plain_ok = rng.random() < 0.5
     proto = rng.choice(PLAIN_PROTOS if plain_ok else FRAG_PROTOS)
-    vl = tuple(rng.randrange(4096) for _ in range(rng.choice([0, 0, 1, 2, 3])))
+    vl = tuple(rng.choice([0, 4095, rng.randrange(4096), rng.randrange(4096)]) for _ in range(rng.choice([0, 0, 1, 2, 3])))
     ident = rng.choice([0, 1, 0xFFFF, rng.randrange(65536)]) if ver == 4 else rng.choice([0, 0xFFFFFFFF, 0x10000, rng.randrange(2**32)])
     return (ver, rbytes(rng, n, None), rbytes(rng, n, None), ident, proto, vl, rng.choice([0, 1, 2, 3, 0xFFFFFFFF, rng.randrange(2**32)]))
 
@@ -82,7 +82,8 @@ def variant(rng, k, comp=None):
         vl = list(vlans)
         how = rng.choice(["add", "drop", "flip", "reorder"])
         if how == "add" and len(vl) < 3:
-            vl.insert(rng.randrange(len(vl) + 1), rng.randrange(4096))
+            # a tag with id 0 (priority tagged frame) is a tag like any other: [] and [0], [7] and [0, 7] differ
+            vl.insert(rng.randrange(len(vl) + 1), rng.choice([0, 0, 4095, rng.randrange(4096)]))
         elif how == "drop" and vl:
             vl.pop(rng.randrange(len(vl)))
         elif how == "reorder" and len(vl) >= 2 and vl[0] != vl[1]:
@@ -91,7 +92,7 @@ def variant(rng, k, comp=None):
             i = rng.randrange(len(vl))
             vl[i] ^= 1 << rng.randrange(12)
         else:
-            vl = [rng.randrange(4096)]
+            vl = [rng.choice([0, rng.randrange(4096)])]
         vlans = tuple(vl)
     elif comp == "chan":
         # (odd channels without VLAN tags are sliced from the IP layer, even ones from Ethernet)
